@@ -33,7 +33,7 @@ Definition cc_token (c : cc_cfg) : string :=
 Definition cc_result (c : cc_cfg) : result :=
   {| rs_sent := {| s_url := cc_url c; s_method := "POST"; s_headers := []; s_cookies := []; s_auth := "";
                    s_body := join " " (cc_scopes c) |};
-     rs_sub := cc_token c; rs_scopes := [] |}.
+     rs_sub := cc_token c; rs_scopes := []; rs_aud := []; rs_active := true |}.
 
 (* ------------------------------------------------------------------ jwt finalizer *)
 
@@ -84,7 +84,7 @@ Record jtoken := { jt_sub : string; jt_claims : string; jt_iss : string; jt_kid 
 Definition enc_jtoken (t : jtoken) : result :=
   {| rs_sent := {| s_url := jt_iss t; s_method := jt_kid t; s_headers := []; s_cookies := [];
                    s_auth := String.concat "" (repeat "g" (jt_gen t)); s_body := jt_claims t |};
-     rs_sub := jt_sub t; rs_scopes := [] |}.
+     rs_sub := jt_sub t; rs_scopes := []; rs_aud := []; rs_active := true |}.
 
 (** [None]: the claims template failed to render *)
 Definition jf_claims_text (c : jf_cfg) (q : jreq) : option string :=
@@ -143,58 +143,72 @@ Fixpoint cc_run (H : string -> string) (cch : cache) (h : list cc_cfg) : list sr
 
 (* ------------------------------------------------------------------ RFC 7234 cache of an endpoint (httpcache.RoundTripper) *)
 
-(** One endpoint with `http_cache.enabled`.  [hc_vary]: the request header names
-    the server lists in `Vary`.  The harness's server is honest: its response is
-    made of exactly these request headers and, for POST, of the request body.
-    [hc_cacheable]: the response carries freshness information and no no-store
-    (the RFC 7234 parser is an oracle; it accepts responses to GET and to POST). *)
-Record hc_cfg := { hc_url : string; hc_method : string; hc_vary : list string; hc_cacheable : bool }.
+(** Endpoints with `http_cache.enabled`: url, method and the Authorization header
+    their strategy sets ("" = none).  [hc_world]: what the harness's server does
+    at a url — the request header names it lists in `Vary`, and whether its
+    response carries freshness information and no no-store (the RFC 7234 parser
+    is an oracle; it accepts responses to GET and to POST).  The server is
+    honest: its response is made of exactly the Vary-listed request headers, the
+    Authorization header and, for POST, the request body. *)
+Record hc_cfg := { hc_url : string; hc_method : string; hc_auth : string }.
+
+Definition hc_world := list (string * (list string * bool)).
 
 Record hc_req := { hq_headers : alist; hq_body : string }.
 
-Definition hc_fields (c : hc_cfg) : list fld := [FV "RFC 7234"; FV (hc_url c); FV (hc_method c)].
+Definition hc_site (w : hc_world) (c : hc_cfg) : list string * bool :=
+  match lookup (hc_url c) w with Some x => x | None => ([], false) end.
+
+Definition hc_vary (w : hc_world) (c : hc_cfg) : list string := fst (hc_site w c).
+Definition hc_cacheable (w : hc_world) (c : hc_cfg) : bool := snd (hc_site w c).
+
+(** cacheKey: "RFC 7234", url, method and the trimmed Authorization value if there is one *)
+Definition hc_fields (c : hc_cfg) : list fld :=
+  [FV "RFC 7234"; FV (hc_url c); FV (hc_method c)] ++ (if String.eqb (hc_auth c) "" then [] else [FV (hc_auth c)]).
 
 Definition hc_key (H : string -> string) (c : hc_cfg) : string := hex (H (cat (hc_fields c))).
 
-Definition hc_vary_part (c : hc_cfg) (q : hc_req) : string :=
-  match hc_vary c with
+Definition hc_vary_part (w : hc_world) (c : hc_cfg) (q : hc_req) : string :=
+  match hc_vary w c with
   | [] => "static"
   | v => join "|" (map (fun n => or_default "" (lookup n (hq_headers q))) v)
   end.
 
 Definition hc_is_post (c : hc_cfg) : bool := String.eqb (hc_method c) "POST".
 
-Definition hc_body (c : hc_cfg) (q : hc_req) : string :=
-  (hc_vary_part c q ++ (if hc_is_post c then "#" ++ hq_body q else ""))%string.
+Definition hc_body (w : hc_world) (c : hc_cfg) (q : hc_req) : string :=
+  (hc_vary_part w c q ++ "@" ++ hc_auth c ++ (if hc_is_post c then "#" ++ hq_body q else ""))%string.
 
-(** [fx8]: candidate repair fixes/C11-F8.diff — responses that carry a Vary header and
-    responses to requests other than GET/HEAD are not stored, and only GET/HEAD requests are looked up *)
-Definition hc_stores (fx8 : bool) (c : hc_cfg) : bool :=
-  hc_cacheable c && negb (fx8 && (negb (is_nil (hc_vary c)) || hc_is_post c)).
+(** [fx8]: repair 12fdf68 — responses that carry a Vary header and responses to requests other
+    than GET/HEAD are not stored, and only GET/HEAD requests are looked up *)
+Definition hc_stores (fx8 : bool) (w : hc_world) (c : hc_cfg) : bool :=
+  hc_cacheable w c && negb (fx8 && (negb (is_nil (hc_vary w c)) || hc_is_post c)).
 
 Definition hc_looks_up (fx8 : bool) (c : hc_cfg) : bool := negb (fx8 && hc_is_post c).
 
-Definition hc_result (c : hc_cfg) (q : hc_req) : result :=
+Definition hc_result (w : hc_world) (c : hc_cfg) (q : hc_req) : result :=
   {| rs_sent := {| s_url := hc_url c; s_method := hc_method c; s_headers := []; s_cookies := []; s_auth := "";
-                   s_body := hc_body c q |};
-     rs_sub := ""; rs_scopes := [] |}.
+                   s_body := hc_body w c q |};
+     rs_sub := ""; rs_scopes := []; rs_aud := []; rs_active := true |}.
 
-(** RoundTrip: the key is always looked up; a response is stored when cacheable *)
-Definition hc_exec (fx8 : bool) (H : string -> string) (c : hc_cfg) (cch : cache) (q : hc_req) : sres * cache :=
+(** RoundTrip: the key is looked up; a response is stored when cacheable *)
+Definition hc_exec (fx8 : bool) (H : string -> string) (w : hc_world) (cch : cache) (c : hc_cfg) (q : hc_req)
+  : sres * cache :=
   let k := hc_key H c in
   if negb (hc_looks_up fx8 c)
-  then ({| sr_key := None; sr_hit := false; sr_calls := 1; sr_out := OAllow (hc_result c q) |}, cch)
+  then ({| sr_key := None; sr_hit := false; sr_calls := 1; sr_out := OAllow (hc_result w c q) |}, cch)
   else
   match lookup k cch with
   | Some r => ({| sr_key := Some k; sr_hit := true; sr_calls := 0; sr_out := OAllow r |}, cch)
-  | None => ({| sr_key := Some k; sr_hit := false; sr_calls := 1; sr_out := OAllow (hc_result c q) |},
-             if hc_stores fx8 c then (k, hc_result c q) :: cch else cch)
+  | None => ({| sr_key := Some k; sr_hit := false; sr_calls := 1; sr_out := OAllow (hc_result w c q) |},
+             if hc_stores fx8 w c then (k, hc_result w c q) :: cch else cch)
   end.
 
-Fixpoint hc_run (fx8 : bool) (H : string -> string) (c : hc_cfg) (cch : cache) (h : list hc_req) : list sres :=
+Fixpoint hc_run (fx8 : bool) (H : string -> string) (w : hc_world) (cch : cache) (h : list (hc_cfg * hc_req))
+  : list sres :=
   match h with
   | [] => []
-  | x :: r => let '(y, cch') := hc_exec fx8 H c cch x in y :: hc_run fx8 H c cch' r
+  | (c, q) :: r => let '(y, cch') := hc_exec fx8 H w cch c q in y :: hc_run fx8 H w cch' r
   end.
 
 (* ------------------------------------------------------------------ key cache of the jwt authenticator *)
@@ -239,7 +253,7 @@ Definition jk_lookup (w : jwks_world) (c : jk_cfg) (t : jtok) : jk_fetch :=
 
 Definition jk_owner_result (o : string) : result :=
   {| rs_sent := {| s_url := ""; s_method := ""; s_headers := []; s_cookies := []; s_auth := ""; s_body := "" |};
-     rs_sub := o; rs_scopes := [] |}.
+     rs_sub := o; rs_scopes := []; rs_aud := []; rs_active := true |}.
 
 (** signature verification with the key of [owner] *)
 Definition jk_decide (owner : string) (t : jtok) : outcome :=
